@@ -8,6 +8,13 @@ from mindsdb_sql.parser.utils import ensure_select_keyword_order, JoinType
 """
 Unfortunately the rules are not iherited from base SQLParser, because it just doesn't work with Sly due to metaclass magic.
 """
+def quoted_identifier(value):
+    # a quoted name is one part: dots inside the quotes do not split it
+    if value == '':
+        raise ParsingException('Empty identifier')
+    return Identifier(parts=[value])
+
+
 class MySQLParser(SQLParser):
     log = ParserLogger()
     tokens = MySQLLexer.tokens
@@ -637,7 +644,7 @@ class MySQLParser(SQLParser):
         if hasattr(p, 'identifier'):
             entity.alias = p.identifier
         if hasattr(p, 'dquote_string'):
-            entity.alias = Identifier(p.dquote_string)
+            entity.alias = quoted_identifier(p.dquote_string)
         return entity
 
     @_('LPAREN query RPAREN')
@@ -701,7 +708,7 @@ class MySQLParser(SQLParser):
         if col.alias:
             raise ParsingException(f'Attempt to provide two aliases for {str(col)}')
         if hasattr(p, 'dquote_string'):
-            alias = Identifier(p.dquote_string)
+            alias = quoted_identifier(p.dquote_string)
         else:
             alias = p.identifier
         col.alias = alias
